@@ -206,6 +206,12 @@ func recordArtifacts(paths []string, hashAlgorithms []string, gitignorePatterns 
 					}
 					return nil
 				}
+				// Only regular files are artifacts. Named pipes, sockets and
+				// devices have no content that could be recorded, and opening
+				// a named pipe would block until somebody writes to it.
+				if !info.Mode().IsRegular() {
+					return nil
+				}
 				artifact, err := RecordArtifact(path, hashAlgorithms, lineNormalization)
 				// Abort if artifact can't be recorded, e.g.
 				// due to file permissions
